@@ -200,7 +200,8 @@ def g_type(rng, depth, cfg=None, top=True):
     if k in ('none', 'any'):
         return (k,)
     if k == 'std':
-        return ('std', rng.choice(['decimal', 'fraction', 'datetime', 'date', 'time', 'path', 'pathlike', 'pattern', 'pattern_str', 'pattern_bytes']))
+        return ('std', rng.choice(['decimal', 'fraction', 'datetime', 'date', 'time', 'path', 'pathlike', 'pattern', 'pattern_str', 'pattern_bytes']
+                                  + (['enum_tuple'] * 3 if (cfg or {}).get('enum_tuple') else [])))
     if k == 'seq':
         return ('seq', rng.choices(['list', 'tuple', 'set', 'frozenset'], [4, 3, 1.2, 0.8])[0], g_type(rng, depth - 1, cfg, False))
     if k == 'tuple':
@@ -340,7 +341,8 @@ def g_valid(rng, term, depth=3):
                 'date': ['2020-01-02', '2020-02-30', 'x'], 'time': ['03:04:05', '25:00', '03:04'],
                 'path': ['a/b', '', '/x', 'c.txt'], 'pathlike': ['a/b', 'x'],
                 'pattern': ['a+b', '(', 'a{4294967296}', '[a-z]*', ''], 'pattern_str': ['a+b', '(', '\\d+'],
-                'pattern_bytes': [b'a+', b'(', b'x']}[s]
+                'pattern_bytes': [b'a+', b'(', b'x'],
+                'enum_tuple': [[1, 2], (3, 4), [[1], [2]], [1, [2]], [1, 2, 3], 5, 'x', [1, 2.0], [True, 2], [{}, 2], []]}[s]
         return rng.choice(pool)
     if k == 'seq':
         items = [g_valid(rng, term[2], depth - 1) for _ in range(rng.choice([0, 1, 2, 2, 3]))]
